@@ -18,13 +18,15 @@ use tower_service::Service;
 
 pub fn run(wseed: u64, rt: &tokio::runtime::Runtime) {
     let mut rng = Rng::new(wseed);
-    let window = rng.below(3);
+    // the fixed window (the default) in half of the workloads
+    let window = if rng.chance(1, 2) { 0 } else { 1 + rng.below(2) };
     let limit = 1 + rng.below(3) as usize;
     let threads = 2 + rng.below(3) as usize;
     let per: Vec<usize> = (0..threads).map(|_| 1 + rng.below(2) as usize).collect();
     let n: usize = per.iter().sum();
-    let shape = rng.below(2);
-    let prefill = if shape == 1 { rng.below(limit as u64 + 2) as usize } else { 0 };
+    let shape = if rng.chance(2, 3) { 1 } else { 0 };
+    // an exhausted window before the idle gap in half of the refresh workloads
+    let prefill = if shape == 1 { if rng.chance(1, 2) { limit } else { rng.below(limit as u64 + 2) as usize } } else { 0 };
     println!("MSIM scenario=ratelimiter wseed={} window={} limit={} per_thread={:?} shape={} prefill={}", wseed, window, limit, per, shape, prefill);
 
     let handle = rt.handle().clone();
